@@ -398,7 +398,12 @@ pub fn ext_state<T: 'static>(keep: &mut Vec<Box<dyn Any>>, v: T) -> &'static mut
 }
 
 /// The erased shape as a `Pull` again, so that the real terminal futures run over any shape.
-pub struct DynShape<'g>(pub Box<dyn DynPull + 'g>);
+///
+/// A buggy pull may produce items forever without ever pending; the terminal futures would then
+/// spin inside one poll. After `DYN_PULL_CAP` pulls the shape is forced to end and the run state
+/// notes it (`Rt::cap_hit`), which the caller reports as a livelock violation.
+pub struct DynShape<'g>(pub Box<dyn DynPull + 'g>, pub u64);
+pub const DYN_PULL_CAP: u64 = 6000;
 impl<'g> Unpin for DynShape<'g> {}
 impl<'g> Pull for DynShape<'g> {
     type Ctx<'c> = Context<'c>;
@@ -407,7 +412,13 @@ impl<'g> Pull for DynShape<'g> {
     type CanPend = Yes;
     type CanEnd = Yes;
     fn pull(self: Pin<&mut Self>, ctx: &mut Context<'_>) -> Step {
-        self.get_mut().0.pull_dyn(ctx)
+        let this = self.get_mut();
+        this.1 += 1;
+        if this.1 > DYN_PULL_CAP {
+            RT.with(|r| r.cap_hit.set(true));
+            return PullStep::Ended(Yes);
+        }
+        this.0.pull_dyn(ctx)
     }
     fn size_hint(&self) -> (usize, Option<usize>) {
         self.0.hint()
